@@ -3,6 +3,7 @@ import Stingray.Driver.C17
 import Stingray.Driver.C16
 import Stingray.Driver.Decode
 import Stingray.Driver.Layout
+import Stingray.Driver.Value
 /-!
 Line protocol driver: `lake env lean --run Driver.lean < requests > answers`.
 One request per line: `<family> <op> <args…>` separated by single spaces; one answer line each.
@@ -22,6 +23,7 @@ def dispatch (st : DState) (line : String) : DState × String :=
   | ["DEC", "tables", cps, w, d, s] => ({ st with tables := Dec.mkTables cps w d s }, "ok")
   | "DEC" :: rest => (st, Dec.handle st.tables rest)
   | "LAY" :: rest => (st, Lay.handle rest)
+  | "VAL" :: rest => (st, Value.handle st.tables rest)
   | _ => (st, "bad-op")
 
 partial def loop (h : IO.FS.Stream) (out : IO.FS.Stream) (st : DState) : IO Unit := do
